@@ -26,6 +26,7 @@ DEFAULTS = dict(
     wsgiOptionsMethod='', wsgiOptionsStatus='', wsgiOptionsHeaders=[], wsgiGetMethods=[],
     wsgi405Status='', wsgi405Headers=[], faviconPath='', faviconStatus='', faviconHeaders=[],
     asgiAcceptName='', asgiAcceptEncodingName='', asgiJoin='', asgiNameLowered=False, asgiQueryDecoded=False,
+    asgiQueryCodec='', asgiHeaderCodec='',
     handlerAcceptName='', handlerAcceptEncodingName='', handlerDisableCompression=False,
 )
 
@@ -90,6 +91,9 @@ def _emit(v, fails):
     out += 'def asgiJoin : List Char := %s\n' % chars(v['asgiJoin'])
     out += 'def asgiNameLowered : Bool := %s\n' % _b(v['asgiNameLowered'])
     out += 'def asgiQueryDecoded : Bool := %s\n' % _b(v['asgiQueryDecoded'])
+    out += '-- codecs: canonical names "utf-8" | "latin-1"; query codec is "" when the query string is not decoded\n'
+    out += 'def asgiQueryCodec : List Char := %s\n' % chars(v['asgiQueryCodec'])
+    out += 'def asgiHeaderCodec : List Char := %s\n' % chars(v['asgiHeaderCodec'])
     out += '-- MetricsHandler.do_GET\n'
     out += 'def handlerAcceptName : List Char := %s\n' % chars(v['handlerAcceptName'])
     out += 'def handlerAcceptEncodingName : List Char := %s\n' % chars(v['handlerAcceptEncodingName'])
@@ -331,17 +335,36 @@ def _site_wsgi(tree, v):
     if tail != ['start_response(status, headers)', 'return [output]']: raise Fail('tail changed: %s' % tail)
 
 
+_CODECS = {'utf8': 'utf-8', 'utf-8': 'utf-8', 'utf_8': 'utf-8', 'latin-1': 'latin-1', 'latin1': 'latin-1', 'latin_1': 'latin-1',
+           'iso-8859-1': 'latin-1', 'iso8859-1': 'latin-1', 'l1': 'latin-1'}
+
+
+def _decode_call(node, var):
+    """`VAR.decode(CODEC)` / `VAR.decode()` -> canonical codec name ('utf-8' | 'latin-1'); None when `node` is not such a call"""
+    if not (isinstance(node, ast.Call) and isinstance(node.func, ast.Attribute) and node.func.attr == 'decode'
+            and ast.unparse(node.func.value) == var and not node.keywords and len(node.args) <= 1):
+        return None
+    if not node.args:
+        return 'utf-8'
+    c = const(node.args[0], str).lower()
+    if c not in _CODECS: raise Fail('codec %r not understood' % c)
+    return _CODECS[c]
+
+
 def _site_asgi(tree, v):
     outer = find_func(tree, 'make_asgi_app')
     f = find_func(ast.Module(body=outer.body, type_ignores=[]), 'prometheus_app')
     a = _assigns(f.body)
-    q = ast.unparse(a.get('params', ast.Constant(None)))
-    if q == "parse_qs(scope.get('query_string', b''))":
+    pn = a.get('params')
+    if not (isinstance(pn, ast.Call) and ast.unparse(pn.func) == 'parse_qs' and len(pn.args) == 1 and not pn.keywords):
+        raise Fail('params = parse_qs(…) expected')
+    qarg = pn.args[0]
+    if ast.unparse(qarg) == "scope.get('query_string', b'')":
         v['asgiQueryDecoded'] = False
-    elif q.startswith("parse_qs(scope.get('query_string', b'').decode(") and q.endswith('))'):
-        v['asgiQueryDecoded'] = True
     else:
-        raise Fail('params = %s' % q)
+        c = _decode_call(qarg, "scope.get('query_string', b'')")
+        if c is None: raise Fail('params = %s' % ast.unparse(pn))
+        v['asgiQueryDecoded'], v['asgiQueryCodec'] = True, c
     def joined(name):
         n = a.get(name)
         if not (isinstance(n, ast.Call) and isinstance(n.func, ast.Attribute) and n.func.attr == 'join'
@@ -350,22 +373,28 @@ def _site_asgi(tree, v):
         sep = const(n.func.value, str)
         lc = n.args[0]
         g = lc.generators[0]
-        if not (ast.unparse(lc.elt) in ("value.decode('utf8')", "value.decode('utf-8')", "value.decode()")
-                and ast.unparse(g.target) == '(name, value)' and ast.unparse(g.iter) == "scope.get('headers')"
+        vc = _decode_call(lc.elt, 'value')
+        if not (vc is not None and ast.unparse(g.target) == '(name, value)' and ast.unparse(g.iter) == "scope.get('headers')"
                 and len(g.ifs) == 1 and len(lc.generators) == 1):
             raise Fail('%s comprehension changed' % name)
         t = g.ifs[0]
         if not (isinstance(t, ast.Compare) and len(t.ops) == 1 and isinstance(t.ops[0], ast.Eq)):
             raise Fail('%s header-name test is not ==' % name)
-        l = ast.unparse(t.left)
-        if l in ("name.decode('utf8').lower()", "name.decode('utf-8').lower()", "name.decode().lower()"): low = True
-        elif l in ("name.decode('utf8')", "name.decode('utf-8')", "name.decode()"): low = False
-        else: raise Fail('%s header-name expression %s' % (name, l))
-        return sep, low, const(t.comparators[0], str)
-    s1, l1, n1 = joined('accept_header')
-    s2, l2, n2 = joined('accept_encoding_header')
-    if s1 != s2 or l1 != l2: raise Fail('the two header joins differ in separator or case folding')
+        l = t.left
+        if (isinstance(l, ast.Call) and isinstance(l.func, ast.Attribute) and l.func.attr == 'lower' and not l.args
+                and not l.keywords):
+            low, l = True, l.func.value
+        else:
+            low = False
+        nc = _decode_call(l, 'name')
+        if nc is None: raise Fail('%s header-name expression %s' % (name, ast.unparse(t.left)))
+        if nc != vc: raise Fail('%s decodes names as %s and values as %s' % (name, nc, vc))
+        return sep, low, const(t.comparators[0], str), vc
+    s1, l1, n1, c1 = joined('accept_header')
+    s2, l2, n2, c2 = joined('accept_encoding_header')
+    if s1 != s2 or l1 != l2 or c1 != c2: raise Fail('the two header joins differ in separator, case folding or codec')
     v['asgiJoin'], v['asgiNameLowered'], v['asgiAcceptName'], v['asgiAcceptEncodingName'] = s1, l1, n1, n2
+    v['asgiHeaderCodec'] = c1
     calls = [ast.unparse(n) for n in f.body if isinstance(n, ast.Assign) and 'bake_output' in ast.unparse(n)]
     if calls != ['status, headers, output = _bake_output(registry, accept_header, accept_encoding_header, params, disable_compression)']:
         raise Fail('_bake_output call changed: %s' % calls)
